@@ -1155,8 +1155,11 @@ def _time_now(ex, args, ins, where):
     ns = ex.fresh('time.Now.nsec', 32)
     if is_sym(s):
         ex.add(z3.And(s >= 0, s < (1 << 40)))
-        ex.add(z3.ULT(ns, 1000000000))
-        ns = z3.ZeroExt(32, ns)
+        if z3.is_bv(ns):
+            ex.add(z3.ULT(ns, 1000000000))
+            ns = z3.ZeroExt(32, ns)
+        else:   # integer back end
+            ex.add(z3.And(ns >= 0, ns < 1000000000))
     return TimeV(s, ns)
 
 
